@@ -9,18 +9,19 @@ import time
 from lib.verif import *
 from props import punish_common as pc
 from props import hint_sort as hs
+from props import brarflow as bf
 
 WARM = pc.WARM
 
 SPEC = {
     "C04": {
         "module": "LV.Channel.Props_C04",
-        "targets": ["theories/Channel/Props_C04.vo"] + pc.TARGETS_COMMON + hs.TARGETS,
+        "targets": ["theories/Channel/Props_C04.vo"] + pc.TARGETS_COMMON + hs.TARGETS + bf.TARGETS,
         "theorems": ["C04_wrapper_is_conservative", "C04_wrapper_covers_every_state",
                      "C04_log_matches_revoked_descriptor", "C04_every_output_claimed",
                      "C04_every_revoked_state_punishable",
                      "C04_hint_roundtrip", "C04_hint_fields", "C04_hint_rejects_large",
-                     "C04_hint_injective"],
+                     "C04_hint_injective"] + bf.THEOREMS,
         "mism": "mismatches04",
     },
     "C05": {
@@ -120,6 +121,11 @@ def run_prop(ctx, pid):
         ctx.violation("harness_failed", "breachwatch stage crashed", {"traceback": bw["err"]},
                       signature="breachwatch-stage-crashed", failing_input=False)
     elif bw["res"] is not None:
+        # the breach arbiter's multi-step retribution flow (props/brarflow.py) runs inside the
+        # breachwatch stage's `go test` invocation; it gets its own coverage entry
+        bfc = bw["res"].pop("brarflow", None)
+        if bfc is not None:
+            cov["brarflow_stage"] = bfc
         cov["breachwatch_stage"] = bw["res"]
         import glob as _glob
         for f in _glob.glob(os.path.join(BUILD, "coq_eval", "cases_%s_*.v" % ctx.uid("p%d" % os.getpid()))) + \
